@@ -128,7 +128,7 @@ func (e *Engine) VerifyFunc(fn *ssa.Function, fc *FuncContract) (res *FuncResult
 		env.bindResults(fn.Signature, r.vals)
 		env.reach = r.reach
 		for _, en := range fc.Ensures {
-			g, err := env.evalBool(en.E)
+			g, err := env.evalGoal(en.E)
 			if err != nil {
 				f.bail("ensures %q: %v", en.Text, err)
 			}
